@@ -17,7 +17,7 @@ RULE = ("cases: random clamped shapes (curve/surface/volume, rational or not, no
         "points equal the originals (1e-8*scale). Non-trivial: at least one removal of a knot created by an insertion with "
         "r >= 1 in a direction with an interior span structure or a rational shape; distinct = distinct case hash.")
 ASSUMPTIONS = ["nvmon.ref exact reference model", "only removable knots are removed (created by insertion/refinement in the same "
-               "history); knot values are read back from the object before being referred to again",
+               "history), named either by the value read back from the object or - in the caller-value histories - by the very float the caller inserted",
                "explored domain of DESIGN.md section 3; tolerance 1e-9*scale (1e-8*scale for restored control points), widened by the sound "
                "conditioning bound 1e-13*(range/distance to nearest knot)^copies when that exceeds it (A5.8 divides by alpha per removed copy)"]
 FLOORS = {'quick': {'removal': 300, 'probe-lib': 3000, 'probe-defn': 3000, 'structure': 300, 'restored': 120},
